@@ -287,14 +287,16 @@ impl BitFont {
     ///
     /// This function will return an error if .
     pub fn from_bytes(font_name: impl Into<String>, data: &[u8]) -> EngineResult<Self> {
-        let magic16 = u16::from_le_bytes(data[0..2].try_into().unwrap());
-        if magic16 == BitFont::PSF1_MAGIC {
-            return Ok(BitFont::load_psf1(font_name, data));
-        }
+        if data.len() >= 4 {
+            let magic16 = u16::from_le_bytes(data[0..2].try_into().unwrap());
+            if magic16 == BitFont::PSF1_MAGIC {
+                return Ok(BitFont::load_psf1(font_name, data));
+            }
 
-        let magic32 = u32::from_le_bytes(data[0..4].try_into().unwrap());
-        if magic32 == BitFont::PSF2_MAGIC {
-            return BitFont::load_psf2(font_name, data);
+            let magic32 = u32::from_le_bytes(data[0..4].try_into().unwrap());
+            if magic32 == BitFont::PSF2_MAGIC {
+                return BitFont::load_psf2(font_name, data);
+            }
         }
 
         BitFont::load_plain_font(font_name, data)
